@@ -25,7 +25,8 @@ EXPLANATION = (
     "or a shallow copy handed to a recursive merge; (g) a sequence constructor that builds an inner sequence from self._data_seq after "
     "the context was threaded threads the whole sequence again afterwards -- on every constructor path, with the inner sequence recognised "
     "also when its elements reach it through locals derived from self._data_seq / self._seq / the arguments or through a module-level helper.  Does not decide the "
-    "concrete context seen for a concrete tree.")
+    "concrete context seen for a concrete tree."    " Added after the eighth round of seeded changes and the second round of behaviour-preserving changes: (h) MEMORYLESS: no _set_context method reads, before assigning it, a field that it assigns itself."
+)
 RULES = {
     "C13-h": "MEMORYLESS: no _set_context method reads a field that it writes itself -- what an element makes of the static context "
              "depends on the context it is given now and on what the constructor stored, not on an earlier call",
